@@ -153,7 +153,7 @@ func c14ExecRun(t *rapid.T) {
 	}
 	var progs []*Program
 	for i := 0; i < nprog; i++ {
-		progs = append(progs, genProgram(t, genOpts{tolerant: true, toleratedOnly: true, lateLet: true, probes: true, mapRegions: true, pureMapBody: true, sideEffects: true, failing: true, failPct: 10, probePct: 15, maxPieces: 4, maxDepth: 2, litModePct: 24, brokenPct: 10}))
+		progs = append(progs, genProgram(t, genOpts{tolerant: true, toleratedOnly: true, lateLet: true, probes: true, mapRegions: true, pureMapBody: true, sideEffects: true, failing: true, failPct: 10, probePct: 15, maxPieces: 4, maxDepth: 2, litModePct: 24, brokenPct: 10, fewArgs: true}))
 	}
 	if scenario == 3 && nprog >= 2 && uni(t, "crlfcopy", 3) == 0 && strings.Contains(progs[0].Main, "\n") {
 		// two texts that differ only in their line endings go through the cache at the same time
@@ -401,6 +401,17 @@ func c14ExecRun(t *rapid.T) {
 			}()
 		}
 	}
+	if scenario == 3 && cacheOn && uni(t, "panickingparse", 3) == 0 {
+		// one caller feeds the cache-aware Parse inputs on which the PARSER PANICS (a text ending in `\<`, a defect of
+		// the pinned tree that is not this property's subject) and recovers, as net/http does for a handler: whatever
+		// Parse holds at that moment must be released, or every other caller hangs
+		count("c14_s3_panicking_parse_runs", 1)
+		sim.Go("X", func() {
+			for n := 0; n < 2; n++ {
+				_, _ = guardedParse(fmt.Sprintf("%d%% off \\<", 50+n))
+			}
+		})
+	}
 	if scenario == 2 && rapid.Bool().Draw(t, "parentwriter") {
 		// somebody keeps Setting (keys no template reads) on the shared
 		// parent while its children render
@@ -516,6 +527,13 @@ func c14ExecRun(t *rapid.T) {
 				if strings.Contains(pr, "HelperContext.BlockWith") {
 					all = true
 				}
+			}
+			// the race runtime reports an address once per process and cannot always restore the older access, so a
+			// run may show only the consequences. They are attributed by CAUSE: every access of every report happens
+			// while a contentOf of a child runs the block stored by the parent's page (ContentFor's closure) - that is,
+			// on the parent's evaluator
+			if !all && raceStacksAllThrough(raceText, "helpers/content.ContentFor.func1") {
+				all = true
 			}
 			if all {
 				sig = "race:S7:evaluator-shared-through-contentFor-block-of-the-parent"
